@@ -394,6 +394,18 @@ fn emit_fn(
         if let Some(Stmt::Expr(tail, None)) = block.stmts.pop() {
             let mut calls: Vec<syn::ExprMethodCall> = Vec::new();
             let mut cur = tail.clone();
+            // `f(a.m1().m2())` (a chain wrapped by R-chain / R-method-map): peel the one-argument calls
+            let mut wrappers: Vec<syn::ExprCall> = Vec::new();
+            loop {
+                match cur {
+                    syn::Expr::Call(c) if c.args.len() == 1 && matches!(c.args[0], syn::Expr::MethodCall(_)) => {
+                        let inner = c.args[0].clone();
+                        wrappers.push(c);
+                        cur = inner;
+                    }
+                    other => { cur = other; break; }
+                }
+            }
             loop {
                 match cur {
                     syn::Expr::MethodCall(mc) => {
@@ -411,11 +423,31 @@ fn emit_fn(
                 block.stmts.push(Stmt::Expr(tail, None));
             } else {
                 calls.reverse();
+                let mut nsteps = 0usize;
                 let mut prev: syn::Expr = cur;
                 for (k, mut mc) in calls.into_iter().enumerate() {
                     let id = syn::Ident::new(&format!("__c{}", k), Span::call_site());
                     mc.receiver = Box::new(prev);
                     let e = syn::Expr::MethodCall(mc);
+                    block.stmts.push(syn::parse_quote!(let mut #id = #e;));
+                    if let Some(c) = contract {
+                        for (i, (anchor, _)) in c.inserts.iter().enumerate() {
+                            if let Anchor::Chain(n) = anchor {
+                                if *n == k {
+                                    block.stmts.push(rules::quote_marker(i));
+                                }
+                            }
+                        }
+                    }
+                    prev = syn::parse_quote!(#id);
+                    nsteps = k + 1;
+                }
+                wrappers.reverse();
+                for (j, mut w) in wrappers.into_iter().enumerate() {
+                    let k = nsteps + j;
+                    let id = syn::Ident::new(&format!("__c{}", k), Span::call_site());
+                    w.args[0] = prev;
+                    let e = syn::Expr::Call(w);
                     block.stmts.push(syn::parse_quote!(let mut #id = #e;));
                     if let Some(c) = contract {
                         for (i, (anchor, _)) in c.inserts.iter().enumerate() {
